@@ -84,7 +84,7 @@ def bits_below(nd, bit_of):
 
 
 @with_signature(SPEC)
-def c01_encode(**kw):
+def c01_encode(kw):
     parents = list(kw["shape"])
     nbits = kw["nbits"]
     rooted = True if kw["rooted"] else False
@@ -146,7 +146,7 @@ def splitset(tree):
 
 
 @with_signature(SPEC)
-def c01_iff(**kw):
+def c01_iff(kw):
     """equal split sets <=> same (un)rooted topology, for two trees over the same leaves"""
     p1, p2 = list(kw["shape"]), list(kw["shape2"])
     nbits = kw["nbits"]
@@ -174,7 +174,7 @@ def c01_iff(**kw):
 
 
 @with_signature(SPEC)
-def c01_redraw(**kw):
+def c01_redraw(kw):
     """child order, inserted unifurcations and (unrooted) seed position do not change the split set"""
     p1 = list(kw["shape"])
     nbits = kw["nbits"]
@@ -214,7 +214,7 @@ def c01_redraw(**kw):
 
 
 @with_signature(SPEC)
-def c01_rebuild(**kw):
+def c01_rebuild(kw):
     """from_bipartition_encoding / from_split_bitmasks on the encoding in any order"""
     p1 = list(kw["shape"])
     rooted = True if kw["rooted"] else False
@@ -262,7 +262,7 @@ def c01_rebuild(**kw):
 
 
 @with_signature(SPEC)
-def c01_predicates(**kw):
+def c01_predicates(kw):
     """predicates on real bipartitions of real trees vs the set definitions on leaf-label sets"""
     p1, p2 = list(kw["shape"]), list(kw["shape2"])
     nbits = kw["nbits"]
